@@ -371,3 +371,32 @@ Lemma bisect_finds_boundary : forall (A : Type) (p : A -> bool) (l1 l2 : list A)
   forallb (fun y => negb (p y)) l1 = true -> forallb p l2 = true ->
   bsearch p (l1 ++ l2) (S (length (l1 ++ l2))) 0 (length (l1 ++ l2)) = length l1.
 Proof. intros A p l1 l2 H1 H2. apply bsearch_partition; auto; rewrite ?app_length; lia. Qed.
+
+(* ---------- PGPUID.selfsig (repair 812bc0f: the newest self-CERTIFICATION) and its readers ---------- *)
+(* a signature that is not a certification by the key - a certification revocation, an attestation, anything by another key -
+   leaves the self-signature of the identity as it was, wherever the deque puts it *)
+Lemma find_app_k {A : Type} (f : A -> bool) : forall a b, find f (a ++ b) = match find f a with Some x => Some x | None => find f b end.
+Proof. induction a as [|x r IH]; intros b; simpl; [reflexivity|]. destruct (f x); [reflexivity|apply IH]. Qed.
+
+Lemma find_rev_insert_at {A : Type} (f : A -> bool) : forall i x l, f x = false -> find f (rev (insert_at i x l)) = find f (rev l).
+Proof.
+  intros i x l Hx. unfold insert_at. rewrite <- (firstn_skipn i l) at 3. rewrite !rev_app_distr. simpl.
+  rewrite <- app_assoc, !find_app_k. simpl. rewrite Hx. reflexivity.
+Qed.
+
+Theorem noncert_keeps_effective : forall K u s,
+  (is_cert_type (c_type (s_core s)) = false \/ c_issuer (s_core s) <> K) ->
+  selfsig K (uid_or_sig u s) = selfsig K u.
+Proof.
+  intros K u s H. unfold selfsig, uid_or_sig, insort. simpl. apply find_rev_insert_at.
+  destruct H as [H|H]; [rewrite H; reflexivity|]. apply Z.eqb_neq in H. rewrite H. apply andb_false_r.
+Qed.
+
+(* hence the primary mark and the place of the identity in PGPKey._uids (PGPUID.__lt__) do not move either *)
+Theorem uid_lt_ignores_noncert : forall K a b s,
+  (is_cert_type (c_type (s_core s)) = false \/ c_issuer (s_core s) <> K) ->
+  uid_is_primary K (uid_or_sig a s) = uid_is_primary K a
+  /\ uid_lt K (uid_or_sig a s) b = uid_lt K a b /\ uid_lt K b (uid_or_sig a s) = uid_lt K b a.
+Proof.
+  intros K a b s H. unfold uid_lt, uid_lt_with, uid_is_primary, uid_is_primary_with. rewrite (noncert_keeps_effective K a s H). simpl. repeat split.
+Qed.
